@@ -127,6 +127,16 @@ def check(tier='quick', seed=0):
                     r = check_result('supplied good start with non-PEC boundary', grid, sigma, sfield, st, info, tol)
                     if r:
                         return fail(shape=shape, frequency=freq, cycle=cycle, sslsolver=ssl, tol=tol, **r)
+                    # ---- already good enough start with values on the outer box edges only (they enter no interior equation)
+                    cases += 1
+                    st = good.copy()
+                    st.fx[:, -1, -1] = 1e-3
+                    st.fy[-1, :, -1] = 1e-3
+                    st.fz[-1, -1, :] = 1e-3
+                    info = emg3d.solve(model, sfield, efield=st, **kw)
+                    r = check_result('supplied good start with non-zero values on the box edges', grid, sigma, sfield, st, info, tol)
+                    if r:
+                        return fail(shape=shape, frequency=freq, cycle=cycle, sslsolver=ssl, tol=tol, **r)
                     # ---- zero source, fresh and supplied
                     cases += 1
                     ef, info = emg3d.solve(model, zero_src, **kw)
